@@ -177,6 +177,23 @@ def junk_cases(rng, n):
             big = str(rng.pick(cnts)).encode()
             ks = rng.pick([ch + big + b".", ch + big + b"." + b"3.", b"Oo" + body + b"\x16\x1b\x1b^\"qy$" + big + b"@q", ch + b"2." + big + b"."])
             out.append(case(f, ks, 24, 80)); continue
+        if i % 25 == 13:
+            # counts of nine to twenty digits (beyond int), single and doubled, with commands whose work does not
+            # grow with the count
+            f = gen_file(rng)
+            def big():
+                k = rng.below(6)
+                if k == 0: return str(rng.pick([2147483647, 2147483648, 4294967295, 4294967296, 4294967297, 999999999, 1000000000])).encode()
+                return bytes(rng.pick(b"123456789") for _ in range(1)) + bytes(rng.pick(b"0123456789") for _ in range(8 + rng.below(12)))
+            cheap = [b"x", b"X", b"G", b"|", b"l", b"h", b"j", b"k", b"w", b"b", b"e", b"W", b"B", b"E", b"$", b"_", b"+", b"-", b"H", b"L", b"M", b"~", b"rZ", b"J", b">>", b"<<",
+                     b"dd", b"yy", b"D", b"\x05", b"\x19", b"\x06", b"\x02", b"\x04", b"\x15", b"fo", b"to", b"Fo", b";", b",", b"n", b"%", b"z\n", b"z.", b"dw", b"yj", b"dl", b"g~w", b">j", b"d$", b"c$x\x1b", b"sx\x1b"]
+            parts = []
+            for _ in range(1 + rng.below(5)):
+                c = rng.pick(cheap)
+                if rng.below(3) == 0 and len(c) == 2 and c[:1] in b"dyc>g": parts.append(big() + c[:1] + big() + c[1:])
+                else: parts.append(big() + c)
+                if rng.below(3) == 0: parts.append(motion(rng))
+            out.append(case(f, b"".join(parts), 24, 80)); continue
         if i % 25 == 7:
             # fixed-size buffers of the insert-mode line editor: indentation that accumulates over several typed
             # lines (the 128-byte auto-indent array), ^T / ^D runs, very long typed lines
